@@ -13,6 +13,7 @@ import (
 
 	"github.com/gotd/td/bin"
 	"github.com/gotd/td/mt"
+	"github.com/gotd/td/mtproto"
 	"github.com/gotd/td/mtproto/salts"
 	"github.com/gotd/td/proto"
 	"github.com/gotd/td/verifharness/hx"
@@ -202,8 +203,26 @@ func errCode(err error) int64 {
 
 func runConn(cr connRun) (out []obs, fail string) {
 	start := time.Unix(1_704_067_200, 0)
-	env := mtx.NewEnv(hx.NewRand(cr.Seed), mtx.Config{Salt: cr.Init, Start: start})
+	env := mtx.NewEnv(hx.NewRand(cr.Seed), mtx.Config{Salt: cr.Init, Start: start, Options: func(o *mtproto.Options) {
+		o.RequestTimeout = func(uint32) time.Duration { return 200 * time.Millisecond }
+	}})
 	defer env.Close()
+	finished := mtx.Watchdog(caseDeadline, func() { out, fail = runConnOps(env, cr) }, env.Close)
+	if !finished {
+		return nil, "hang: the scenario did not finish within " + caseDeadline.String() + " (requests stuck or re-sent without end)"
+	}
+	return out, fail
+}
+
+// caseDeadline bounds one Conn scenario (they take milliseconds).
+const caseDeadline = 8 * time.Second
+
+// maxSends bounds how many transmissions of one logical request the scripted peer answers
+// (with "ok" once the script is exhausted), so that an implementation that keeps re-sending
+// is observed and reported instead of waited for.
+const maxSends = 6
+
+func runConnOps(env *mtx.Env, cr connRun) (out []obs, fail string) {
 	setClock := func(ns int64) { env.Clock.Set(time.Unix(0, ns)) }
 	pendingStoreObs := false
 	for _, o := range cr.Ops {
@@ -251,24 +270,40 @@ func runConn(cr connRun) (out []obs, fail string) {
 			setClock(o.Arg)
 			script := o.Res
 			done := make(chan struct{})
+			stop := make(chan struct{})
 			var sent []int64
-			var reqID int64
 			go func() {
 				defer close(done)
-				for i := 0; i < len(script); i++ {
-					f, ok := env.NextSent(5 * time.Second)
-					if !ok {
+				for {
+					var f mtx.Frame
+					select {
+					case raw := <-env.Pipe.Sent:
+						var err error
+						if f, err = env.Decode(raw); err != nil {
+							continue
+						}
+					case <-stop:
 						return
 					}
-					if reqID == 0 {
-						reqID = f.MsgID
-					}
-					if f.MsgID != reqID {
-						i--
+					switch f.TypeID {
+					case mt.RPCDropAnswerRequestTypeID: // issued by an Invoke whose context ended
+						var pb bin.Buffer
+						_ = (&mt.RPCAnswerDropped{MsgID: f.MsgID}).Encode(&pb)
+						_ = env.Reply(&proto.Result{RequestMessageID: f.MsgID, Result: pb.Copy()})
+						continue
+					case mt.GetFutureSaltsRequestTypeID: // a transmission of the logical request
+					default:
 						continue
 					}
+					i := len(sent)
 					sent = append(sent, f.Salt)
-					code, ns := script[i][0], script[i][1]
+					if i >= maxSends {
+						continue // no more answers: the watchdog / Invoke's context ends the case
+					}
+					code, ns := int64(0), int64(0)
+					if i < len(script) {
+						code, ns = script[i][0], script[i][1]
+					}
 					var body bin.Encoder
 					switch {
 					case code == 0:
@@ -285,27 +320,15 @@ func runConn(cr connRun) (out []obs, fail string) {
 						body = &mt.BadMsgNotification{BadMsgID: f.MsgID, BadMsgSeqno: int(f.SeqNo), ErrorCode: int(code)}
 					}
 					_ = env.Reply(body)
-					if code != 48 {
-						return
-					}
 				}
 			}()
-			ctx, cancel := context.WithTimeout(env.Ctx, 10*time.Second)
+			ctx, cancel := context.WithTimeout(env.Ctx, 3*time.Second)
 			var res mt.RPCAnswerUnknown
 			err := env.Conn.Invoke(ctx, &mt.GetFutureSaltsRequest{Num: 1}, &res)
 			cancel()
+			time.Sleep(2 * time.Millisecond) // a transmission after the return would show up here
+			close(stop)
 			<-done
-			// anything else written for this request after Invoke returned?
-			for more := true; more; {
-				select {
-				case raw := <-env.Pipe.Sent:
-					if f, e := env.Decode(raw); e == nil && f.MsgID == reqID {
-						sent = append(sent, f.Salt)
-					}
-				default:
-					more = false
-				}
-			}
 			for _, s := range sent {
 				out = append(out, obs{2, s})
 			}
@@ -442,7 +465,11 @@ func main() {
 			fail = fmt.Sprintf("panic: %v", v)
 		}
 		if fail != "" {
-			c.Violate("conn-run-failed", "Conn: "+fail, -1, 0, cr)
+			sig := "conn-run-failed"
+			if strings.HasPrefix(fail, "hang") {
+				sig = "scenario-hang"
+			}
+			c.Violate(sig, "Conn: "+fail, -1, 0, map[string]interface{}{"conn": cr})
 			return
 		}
 		for _, o := range cr.Ops {
